@@ -227,6 +227,9 @@ func TestC05(t *testing.T) {
 		if c.res.ReAdds > 0 {
 			r.Count("scenarios_with_AddInput_of_the_same_channel", 1)
 		}
+		if c.res.SatRemovals > 0 {
+			r.Count("scenarios_with_RemoveInput_under_saturation", 1)
+		}
 		if len(c.sc.Inputs) >= 2 && c.res.SatGroups >= 5 && c.res.SatChecks >= 3 {
 			r.NonTrivial(jsonString(c.sc))
 			if r.WantSample() {
